@@ -10,6 +10,7 @@ import L21.Driver.RawGdsIO
 import L21.Driver.PlaceIO
 import L21.Driver.LefIO
 import L21.Driver.TProtoIO
+import L21.Driver.TetrisIO
 /-
 Line-protocol operations: `<op> <sexpr>*` ↦ result line.
 -/
@@ -156,6 +157,7 @@ def dispatch (op : String) (args : List Sexp) : String :=
   | "tproto.export" => TP.opTExport args
   | "tproto.import" => TP.opTImport args
   | "tproto.rt" => TP.opTRoundtrip args
+  | "tetris.compile" => TT.opCompile args
   | "tf.apply" => opTfApply args
   | "tf.general" => "unsupported"
   | "c20.abs2gds" => "unsupported"
